@@ -194,6 +194,22 @@ CLAIMS = {
                      "raise AttributeError. Same rendering of a duplicate follows from C02 (render is a function of "
                      "the reachable structure). User values stored in the tree must themselves be copyable.",
         design="§5 C15"),
+    "C06": dict(
+        technique="contract-based deductive verification: depth-0 operator skeleton of every Term render function "
+                  "(from the symbolic result shape), exposure contracts per class, exhaustive finite check of the "
+                  "parenthesisation functions against a reference precedence table, z3",
+        level="other",
+        text="Per class the operators its text shows at bracket depth 0 are among its declared exposure "
+             "(prec/exposure); per parent class x operand slot x adjacent operator x level a child may expose, the "
+             "operand is bracketed wherever the reference grammar would regroup (prec/embed); for "
+             "ArithmeticExpression all 4x4x2 (parent, child, side) cases of the real bracket condition (prec/arith, "
+             "exhaustive); AND/OR/XOR groups and NOT pass/obey the subcriterion flag (prec/bool); a '-' is never "
+             "directly followed by an operand whose text starts with '-' (prec/fuse). Refuted obligations (operands "
+             "of comparisons, BETWEEN, IN, IS NULL, criteria inside arithmetic, a*(b/c)) are known findings.",
+        note=TRUST + "Reference precedence table contracts/spec/precedence.py is a trusted spec; L-PREC is a paper "
+                     "lemma. Fusion of tokens other than '-' '-' is not analysed. Raw SQL supplied by the user "
+                     "(LiteralValue, custom functions) is outside the closed world.",
+        design="§5 C06"),
 }
 
 PENDING = "machinery for this property not completed yet (build in progress, see DESIGN.md §10)"
